@@ -2019,12 +2019,16 @@ parse_citation:
 			print_const("\\%");
 			break;
 
+		case RAW_FILTER_LEFT:
+			// An unmatched `{=` is plain text: the brace needs the same escape as TEXT_BRACE_LEFT
+			print_const("\\{=");
+			break;
+
 		case TEXT_BRACE_LEFT:
 		case TEXT_BRACE_RIGHT:
 			print_const("\\");
 
 		case PAIR_RAW_FILTER:
-		case RAW_FILTER_LEFT:
 		case TEXT_NUMBER_POSS_LIST:
 		case TEXT_PERIOD:
 		case TEXT_PLAIN:
@@ -2352,6 +2356,10 @@ void mmd_export_token_latex_tt(DString * out, const char * source, token * t, sc
 				print_const("\\^{}");
 			}
 
+			break;
+
+		case RAW_FILTER_LEFT:
+			print_const("\\{=");
 			break;
 
 		case TEXT_BRACE_LEFT:
